@@ -24,7 +24,7 @@ ASSUMPTIONS = ["histories of depth <= 2 (quick) / 4 (thorough) over an alphabet 
 
 SPECS = {
     "LinearModel": [{}, {"gemini": "wasserstein_ova", "batch_size": 2}, {"batch_size": 2, "_mlcl": True}], "LinearMMD": [{"kernel": "rbf_g"}, {"kernel": "pre_psd"}, {"kernel": "pre_roundsym", "batch_size": 5}],
-    "LinearWasserstein": [{"ovo": True}, {"metric": "pre_rounddist"}], "RIM": [{"batch_size": 3}], "KernelRIM": [{}, {"base_kernel": "rbf_g", "batch_size": 2}],
+    "LinearWasserstein": [{"ovo": True}, {"metric": "pre_rounddist"}], "RIM": [{"batch_size": 3}], "KernelRIM": [{}, {"base_kernel": "rbf_g", "batch_size": 2}, {"base_kernel": "callable", "_base_kernel_params": {"gamma": 0.3}}],
     "MLPModel": [{}, {"gemini": "mi", "batch_size": 2}, {"batch_size": 3, "_mlcl": True}], "MLPMMD": [{"ovo": True}], "MLPWasserstein": [{"metric": "l1"}],
     "SparseLinearModel": [{"alpha": 0.3}, {"alpha": 0.3, "dynamic": True, "batch_size": 2}, {"alpha": 0.3, "batch_size": 2, "_mlcl": True}], "SparseLinearMMD": [{"alpha": 0.3, "groups": [[0, 1]]}, {"alpha": 0.3, "groups": [[1]]}, {"alpha": 0.3, "kernel": "pre_psd", "dynamic": True}],
     "SparseLinearMI": [{"alpha": 0.3}, {"alpha": 0.0}], "SparseMLPModel": [{"alpha": 0.3}], "SparseMLPMMD": [{"alpha": 0.3, "batch_size": 3}, {"alpha": 0.3, "kernel": "pre_psd", "dynamic": True, "ovo": True}],
@@ -174,6 +174,19 @@ def history_search(case):
         return m, y1, y2
     m0, y1, y2 = fresh()
     y3 = None if y1 is None else _build(name, spec, X3, seed + 1)[1]
+    pre_violations = []
+    if not decorated:
+        # hyperparameters are stored as given: an estimator built by its constructor and one built with the library defaults and then
+        # set_params(...) with the same values report the same get_params(), and both survive clone()
+        try:
+            m_set, _, _ = _build(name, dict(spec, _route="set_params"), X1, seed)
+            if _params_repr(m_set) != _params_repr(m0):
+                pre_violations.append(("constructor_and_set_params_store_different_hyperparameters", {"constructor": _params_repr(m0), "set_params": _params_repr(m_set)}))
+            for tag_, mm in (("constructor", m0), ("set_params", m_set)):
+                if _params_repr(clone(mm)) != _params_repr(mm):
+                    pre_violations.append(("clone_does_not_round_trip_hyperparameters", {"built_by": tag_, "original": _params_repr(mm)}))
+        except Exception as e:  # noqa
+            pre_violations.append(("clone_does_not_round_trip_hyperparameters", {"error": repr(e)[:300]}))
     D = {"X1": X1, "X2": X2, "X3": X3, "y1": y1, "y2": y2, "y3": y3}
     pristine = {k: (None if v is None else v.copy()) for k, v in D.items()}
     events = [("fit1",), ("fit2",), ("fit3",), ("fit_predict1",), ("predict1",), ("score1",)]
@@ -216,6 +229,9 @@ def history_search(case):
         if (kind, crashed) not in seen_kinds:
             seen_kinds.add((kind, crashed))
             v.append(violation(kind, detail, **dict(where, after_crashed_dynamic_path=crashed, **extra)))
+    del CRASHED_DYNAMIC_PATH[:]
+    for kind_, detail_ in pre_violations:
+        report(kind_, detail_)
 
     def replay(hist):
         del CRASHED_DYNAMIC_PATH[:]
